@@ -416,6 +416,12 @@ def meter(rng: random.Random, kind, n=None, noise=None):
             u[i] *= g.choice([0.05, 4.0, 9.0])
     elif kind == "drifting":        # little temperature response, base load growing through the year: residuals strongly autocorrelated
         u = 20 * (1 + 0.3 * doy / 365.0) + 0.05 * heat
+    elif kind == "exact_heating":   # metered without noise: the summer days are EXACTLY constant (every residual of that component is zero)
+        u = 12 + 1.3 * heat
+        noise = 0.0
+    elif kind == "flat_exact":      # perfectly constant usage (a fixed charge, a flat estimated read): every residual is exactly zero
+        u = np.full(n, 14.0)
+        noise = 0.0
     elif kind == "smooth":
         u = 10 + 6 * np.log1p(np.exp((55 - T) / 6)) + 5 * np.log1p(np.exp((T - 70) / 5))
     else:
@@ -536,6 +542,8 @@ def run(ctx):
     for i in range(n_fits):
         plan.append((profiles[i % 3] if i % 5 != 4 else "current", kinds[i % len(kinds)] if i else "heat_wave"))
     plan.append(("billing", "drifting"))
+    plan.append(("current", "exact_heating"))
+    plan.append(("current", "flat_exact"))
     for profile, kind in plan:
         mseed = rng.randrange(1 << 30)
         df = meter(random.Random(mseed), kind)
@@ -556,6 +564,33 @@ def run(ctx):
         if len(res["samples"]) < 4:
             res["samples"].append(dict(case=case, submodels={str(k): v.coefficients.model_dump(mode="json", exclude_none=True)
                                                              for k, v in m.params.submodels.items()}))
+
+    # (B2) one model object fitted twice: the first building has a weekday/weekend split, the second has none.  What the second fit
+    # stores must be the sub-models of ITS split, fitted on ITS days — nothing of the first building may remain
+    for profile in (["current"] if not thorough else ["current", "legacy"]):
+        try:
+            mseed = rng.randrange(1 << 30)
+            m = fit_real(profile, meter(random.Random(mseed), "weekday_weekend", n=365, noise=0.2))
+            first_keys = sorted(map(str, m.params.submodels))
+            dfB = meter(random.Random(mseed + 1), "heating", n=365, noise=1.0)
+            dfB["temperature"] = dfB["temperature"] + 9.0
+            m = fit_real(profile, dfB, model=m)
+            case = dict(profile=profile, kind="heating after weekday_weekend on the same model object", meter_seed=mseed)
+            keys, want = sorted(map(str, m.params.submodels)), sorted(m.best_combination.split("__"))
+            res["evaluations"] += 1
+            if keys != want:
+                res["oracle_failures"].append(dict(clause="stored_submodels_are_those_of_the_selected_split", case=case, stored=keys, selected_split=want,
+                                                   first_fit_stored=first_keys))
+            Tb = dfB["temperature"].to_numpy(dtype=float)
+            for key, sub in m.params.submodels.items():
+                tc = dict(sub.temperature_constraints)
+                if not (min(Tb) - 1e-9 <= tc["T_min"] and tc["T_max"] <= max(Tb) + 1e-9):
+                    res["oracle_failures"].append(dict(clause="recorded_limits_are_those_of_the_days_fitted", case=case, component=str(key),
+                                                       recorded=[tc["T_min"], tc["T_max"]], baseline_temperature_range=[float(min(Tb)), float(max(Tb))]))
+                    break
+            sigs.add(("refit_same_object", profile, first_keys != keys))
+        except Exception as e:  # noqa
+            res["hist"][f"refit_scenario_failed:{type(e).__name__}"] = res["hist"].get(f"refit_scenario_failed:{type(e).__name__}", 0) + 1
 
     # (C) correspondence: Lean refine vs the real constructor on every raw vector seen
     if ctx.get("model_ok", True) and lines:
